@@ -100,7 +100,7 @@ func C05(r *report.Report, tier string) {
 	}
 	runCrashJobs(r, jobs, map[string]bool{"C05": true, "C01": false})
 	for _, h := range concHarnesses() {
-		if h.Name != "truncate-write-remove-big" && h.Name != "removebig-create-reuse" && h.Name != "write-remove" {
+		if h.Name != "truncate-write-remove-big" && h.Name != "removebig-create-reuse" && h.Name != "write-remove" && h.Name != "truncate-nonzero-remove-big" {
 			continue
 		}
 		s := ExploreAll(r, "nfs.conc", h, bound, vrt.PUnlock, false)
